@@ -35,7 +35,7 @@ func init() {
 		Rule:           "runs = 10-40 server-authorization posts (new, duplicate with changed ports or location, ban, un-ban attempt, bad / foreign signature, before registration) to 1-3 mutually forwarding servers with peers up or down, each server's list compared with its model after every post; then 6-20 client sync rounds against real servers (lists, GCA-signed migration orders) and a rogue server (orders for another device, outer signature by a foreign or the new GCA, inner signatures by the old GCA, replays of non-banned entries, valid relayed orders) with client restarts; after every round the client's GCA, id and server map are compared with the model of the signature rules, the three files must decode to exactly the adopted state and a restart must resume with it; non-trivial = at least one ban was learned and one migration order (valid or forged) was presented; distinct = distinct decision signatures",
 		Real:           []string{"AuthorizedServersHandler GET/POST incl. forwarding to peers", "EquipmentMigrateHandler", "sync handler", "client sync round: parser, merge, migration adoption, persistence; client start-up load"},
 		Stub:           []string{"rogue server (harness, holding a configured server's key)", "TCP/HTTP (simulated fabric)"},
-		RequiredProbes: []string{"c17.srv.ban", "c17.srv.unban-attempt", "c17.srv.changed-ports", "c17.srv.forwarded", "c17.cli.ban-learned", "c17.cli.migration-adopted", "c17.cli.forged-order", "c17.cli.restart", "c17.cli.unban-replay", "c17.cli.forged-dup-entry", "c17.srv.altered-after-signing", "c17.cli.order-without-usable-server", "c17.cli.key-only-ban"},
+		RequiredProbes: []string{"c17.srv.ban", "c17.srv.unban-attempt", "c17.srv.changed-ports", "c17.srv.forwarded", "c17.cli.ban-learned", "c17.cli.migration-adopted", "c17.cli.forged-order", "c17.cli.restart", "c17.cli.unban-replay", "c17.cli.forged-dup-entry", "c17.srv.altered-after-signing", "c17.cli.order-without-usable-server", "c17.cli.key-only-ban", "c17.cli.order-to-same-gca"},
 		RequiredSites:  []string{"srvauth.between", "csync.premerge", "csync.postmerge"},
 	})
 }
@@ -325,6 +325,14 @@ func runC17(m *Sim) {
 					m.Probe("c17.cli.order-without-usable-server")
 				}
 				em := SignMigration(gca, server.EquipmentMigration{Equipment: dev.Key.Pub, NewGCA: newGCA.Pub, NewShortID: newID, NewServers: list})
+				if m.C.Chance("order-to-same-gca", 1, 8) {
+					// Degenerate but valid: an order that names the current GCA as the
+					// new one (another id, a server signed by that same GCA). Nothing
+					// migrates; the listed server is an ordinary GCA-signed entry.
+					extra := SignServer(gca, server.AuthorizedServer{PublicKey: Key("same-gca-extra").Pub, Location: "extra.sim", HttpPort: 4, TcpPort: 4, UdpPort: 4})
+					em = SignMigration(gca, server.EquipmentMigration{Equipment: dev.Key.Pub, NewGCA: gca.Pub, NewShortID: newID + 1, NewServers: []server.AuthorizedServer{extra}})
+					m.Probe("c17.cli.order-to-same-gca")
+				}
 				nodes[m.C.Int("where", len(nodes))].DoMigrate(em)
 				orders++
 			}
